@@ -1232,11 +1232,11 @@ def _pandas_actors():
     from forml import flow
 
     class Frame(flow.Actor):
-        def __init__(self, ids):
-            self.ids = ids
+        def __init__(self, ids, index=None):
+            self.ids, self.index = ids, index
 
         def apply(self):
-            return pandas.DataFrame({'id': list(self.ids)})
+            return pandas.DataFrame({'id': list(self.ids)}, index=None if self.index is None else list(self.index))
 
     class Label(flow.Actor):
         def apply(self, frame):
@@ -1449,6 +1449,197 @@ def pandas_stack(cfg) -> list:
 
 
 # --------------------------------------------------------------------------------------------------
+# the REAL default reducers / concatenators on adversarial but legal data, against the plain-matrix specification.
+# Exactness: every generated number is UNIT * k = 60k/8 for a small integer k (a multiple of 7.5): such values, their
+# sums and - because every fold count 1..5 divides 60 - their means over the folds are dyadic rationals far below 2**53,
+# i.e. exactly representable as floats; results are compared as `fractions.Fraction`s, never approximately.
+# --------------------------------------------------------------------------------------------------
+UNIT_NUM, UNIT_DEN = 60, 8  # value = UNIT_NUM * k / UNIT_DEN
+
+
+def _frac(value):
+    """Exact rational of a number coming out of the code under test (None if it is no finite number)."""
+    import fractions
+    import math
+    import numbers
+
+    if isinstance(value, bool) or not isinstance(value, numbers.Real):
+        try:
+            value = value.item()  # numpy scalar
+        except Exception:  # pylint: disable=broad-except
+            return None
+    if isinstance(value, float) and not math.isfinite(value):
+        return None
+    try:
+        return fractions.Fraction(value)
+    except Exception:  # pylint: disable=broad-except
+        return None
+
+
+def real_mean(cfg) -> tuple:
+    """The real `TrainTestScore(Function(metric), CrossVal | HoldOut)` - `Function`'s DEFAULT reducer - on pandas data;
+    the metric of a fold is the sum of per-record weights of its held-out records (zero, negative, equal fold scores)
+    -> (per-fold scores in units, the reported value as an exact fraction or None, oracle findings)."""
+    import fractions
+
+    from forml import evaluation, flow
+    from forml.io._input import extract
+    from forml.pipeline import wrap
+    from sklearn import model_selection
+
+    reseed(cfg)
+    Frame, Label, Memo = _pandas_actors()
+    ids, weights, k = cfg['ids'], dict(zip(cfg['ids'], cfg['w'])), cfg['k']
+    if cfg['style'] == 'holdout':
+        method, folds = evaluation.HoldOut(test_size=0.4, random_state=cfg['seed']), 1
+    else:
+        cv = model_selection.KFold(n_splits=k) if cfg['seed'] is False else model_selection.KFold(n_splits=k, shuffle=True, random_state=cfg['seed'])
+        method, folds = evaluation.CrossVal(crossvalidator=cv), k
+    scores = []
+
+    def metric(true, pred):
+        units = sum(weights[int(i)] for i in true)
+        scores.append(units)
+        value = UNIT_NUM * units / UNIT_DEN
+        return int(value) if cfg['ints'] and value == int(value) else value
+
+    with pg.isolated():
+        src = extract.Operator(Frame.builder(ids), Frame.builder(ids, cfg.get('index')), Label.builder())
+        comp = flow.Composition(src, wrap.Operator.mapper(Memo)() >> evaluation.TrainTestScore(evaluation.Function(metric), method))
+        compiled = pg.compile_segment(comp.train, None)
+        value = pg.tail_value(comp.train, compiled, pg.interpret(compiled.symbols))
+    tag = f'(default reducer, {folds} fold(s), fold scores {[UNIT_NUM * u / UNIT_DEN for u in scores]})'
+    if len(scores) != folds:
+        return scores, None, [(f'{len(scores)} (true, prediction) partitions are scored for {folds} fold(s) {tag}', 'eval-fold-count')]
+    got = _frac(value)
+    want = fractions.Fraction(UNIT_NUM * sum(scores), UNIT_DEN * len(scores))  # mean over ALL folds, each weight 1/n
+    if got is None:
+        return scores, None, [(f'the evaluation result {value!r} is not a number {tag}', 'eval-reduction')]
+    if got != want:
+        return scores, got, [(f'the evaluation result {float(got)} is not the mean {float(want)} of the per-fold metric values: '
+                              f'some fold does not contribute exactly once {tag}', 'eval-reduction')]
+    return scores, got, []
+
+
+def real_stack(cfg) -> tuple:
+    """The real `FullStack` with all its DEFAULT actors (PandasCVFolds, PandasConcat appender and stacker, pandas_mean
+    reducer) over pandas-native base learners that keep the index of their input, on frames with non-default indexes
+    -> (per base the fold models' predictions for the live rows in units, the apply output as exact fractions or None,
+    oracle findings).  Base `b` trained on a fold predicts `a_b * x + UNIT * (b + 1) * sum(train labels)`."""
+    import fractions
+
+    import pandas
+    from forml import flow
+    from forml.io._input import extract
+    from forml.pipeline import ensemble, wrap
+    from sklearn import model_selection
+
+    reseed(cfg)
+    xs, ys, index = cfg['x'], cfg['y'], cfg['index']
+    live_x, live_index, slopes, k = cfg['live_x'], cfg['live_index'], cfg['slopes'], cfg['k']
+    cv = Recording(model_selection.KFold(n_splits=k) if cfg['seed'] is False
+                   else model_selection.KFold(n_splits=k, shuffle=True, random_state=cfg['seed']))
+    sink: dict = {}
+
+    def unit(k_):
+        return UNIT_NUM * k_ / UNIT_DEN
+
+    class Frame(flow.Actor):
+        def __init__(self, x, y, index):
+            self.x, self.y, self.index = x, y, index
+
+        def apply(self):
+            return pandas.DataFrame({'x': [unit(v) for v in self.x], 'y': list(self.y)}, index=list(self.index))
+
+    class Label(flow.Actor):
+        def apply(self, frame):
+            return frame[['x']], frame['y']
+
+    class Lin(flow.Actor):
+        """Pandas-native learner: its prediction is a Series carrying the index of its input."""
+
+        def __init__(self, slope: int, scale: int):
+            self.slope, self.scale, self.offset = slope, scale, 0.0
+
+        def train(self, features, labels, /):
+            self.offset = unit(self.scale * sum(int(v) for v in labels))
+
+        def apply(self, features):
+            return (features['x'] * self.slope + self.offset).rename('p')
+
+        def get_params(self):
+            return {'slope': self.slope, 'scale': self.scale}
+
+        def set_params(self, slope, scale):
+            self.slope, self.scale = slope, scale
+
+    class Final(flow.Actor):
+        def train(self, features, labels, /):
+            sink['train'] = (features, labels)
+
+        def apply(self, features):
+            sink['apply'] = features
+            return features
+
+        def get_state(self):
+            return b'final'
+
+        def set_state(self, state):
+            pass
+
+    with pg.isolated():
+        src = extract.Operator(Frame.builder(live_x, [0] * len(live_x), live_index), Frame.builder(xs, ys, index), Label.builder())
+        bases = [wrap.Operator.mapper(Lin, slope=a, scale=b + 1)() for b, a in enumerate(slopes)]
+        expr = ensemble.FullStack(*bases, crossvalidator=cv) >> wrap.Operator.mapper(Final)()
+        comp = flow.Composition(src, expr)
+        train_nodes = pg.segment_workers(comp.train)
+        ctrain = pg.compile_segment(comp.train, None)
+        tvals = pg.interpret(ctrain.symbols)
+        by_gid = {node.gid: tvals[ctrain.index[node.uid]] for node in train_nodes if node.trained}
+        persistent = list(comp.persistent)
+        capply = pg.compile_segment(comp.apply, pg.Assets({g: by_gid[g] for g in persistent if g in by_gid}, persistent))
+        pg.interpret(capply.symbols)
+    tag = f'(default FullStack actors, {k} folds, {len(slopes)} base(s), live index {live_index})'
+    decided = cv.log[0] if cv.log else []
+    # the plain-matrix specification
+    models = [[(b + 1) * sum(ys[p] for p in tr) for tr, _ in decided] for b in range(len(slopes))]  # offset units per base, fold
+    preds = [[[slopes[b] * x + off for x in live_x] for off in models[b]] for b in range(len(slopes))]  # base, fold, row (units)
+    if 'train' not in sink or 'apply' not in sink or len(decided) != k:
+        return preds, None, [(f'the model following the ensemble was not trained / applied {tag}', 'stack-final-untrained')]
+    found = []
+    x, y = sink['train']
+    want_train = [[fractions.Fraction(UNIT_NUM * (slopes[b] * xs[p] + models[b][f]), UNIT_DEN) for b in range(len(slopes))]
+                  for f, (_, te) in enumerate(decided) for p in te]
+    want_labels = [ys[p] for _, te in decided for p in te]
+    try:
+        got_train = [[_frac(v) for v in row] for row in x.values.tolist()] if getattr(x, 'ndim', 0) == 2 else None
+        got_labels = [int(v) for v in y]
+    except Exception:  # pylint: disable=broad-except
+        got_train, got_labels = None, None
+    if got_train != want_train:
+        found.append((f'the stacked train set is not, block by block, the out-of-fold predictions of the bases {tag}', 'stack-pred-records'))
+    elif got_labels != want_labels:
+        found.append((f'the stacked labels are not the held-out labels of the folds {tag}', 'stack-labels'))
+    out = sink['apply']
+    want = [[fractions.Fraction(UNIT_NUM * sum(preds[b][f][i] for f in range(k)), UNIT_DEN * k) for b in range(len(slopes))]
+            for i in range(len(live_x))]  # row i, column b = mean over ALL k fold models of base b for input row i
+    try:
+        got = [[_frac(v) for v in row] for row in out.values.tolist()] if getattr(out, 'ndim', 0) == 2 else None
+    except Exception:  # pylint: disable=broad-except
+        got = None
+    if not found and got != want:
+        if got is None or len(got) != len(want):
+            what = (f'apply mode yields {None if got is None else len(got)} rows for {len(want)} input rows: the fold models are not combined '
+                    f'row by row on the same input')
+        else:
+            row = next(i for i, (g, w) in enumerate(zip(got, want)) if g != w)
+            what = (f'apply-mode row {row} is {[float(v) if v is not None else None for v in got[row]]}, the mean of all fold models\' predictions '
+                    f'for input row {row} is {[float(v) for v in want[row]]}')
+        found.append((f'{what} {tag}', 'stack-apply-reduce'))
+    return preds, got, found[:1]
+
+
+# --------------------------------------------------------------------------------------------------
 # the splitter actor's state / hyper-parameter contract: operation sequences on real CVFoldable actors
 # --------------------------------------------------------------------------------------------------
 def run_ops(cfg) -> tuple:
@@ -1604,7 +1795,17 @@ class C12(fw.Check):
             'actor machine + lineage oracle; (f) PandasCVFolds through Functor(Train) / Functor(Apply).preset_state with sklearn '
             'KFold / ShuffleSplit / LeaveOneOut, seeded and with random_state=None; (g) real evaluations (CrossVal, HoldOut incl. the '
             'default HoldOut(test_size=..) with random_state=None, default mean reducer) and real FullStack train + apply runs on '
-            'pandas data with memorising models.')
+            'pandas data with memorising models; (h) the REAL default reducers / concatenators on adversarial legal data: '
+            'evaluation.Function with its default reducer over 2-5 folds whose scores (sum of per-record weights of the held-out '
+            'records) are zero / negative / equal / cancelling / all zero, ints or floats, frames with non-default indexes; '
+            'FullStack with every default actor (PandasCVFolds, PandasConcat appender and stacker, pandas_mean) over '
+            'pandas-native index-keeping base learners, 1-3 bases, 2-5 folds down to single-row folds, train and live frames '
+            'with default / unsorted / repeated / string / constant / descending index labels, 1-5 live rows (more folds than '
+            'distinct labels included); every number is 60k/8 for a small integer k, so all values, sums and fold means (fold '
+            'counts divide 60) are exactly representable and compared as exact fractions; compared with the Lean reducers '
+            '(meanReducer / stackReduce computed by the driver for the generated data) and with the plain-matrix specification '
+            '(mean over ALL n folds; row i of the apply output = mean of row i of every fold model; stacked train set and labels '
+            'block by block).')
     TRUSTED = [
         'symbolic payloads: the flow layer does not inspect payloads, so actors are uninterpreted symbols over provenance '
         'terms and the recorded rows (parametricity, DESIGN section 3)',
@@ -1614,6 +1815,7 @@ class C12(fw.Check):
         'same cross-validator object; the apply run loads, by gid, the states the train run of the same composition produced '
         '(persistence is C04); performance tracking: the earlier generation\'s states are handed over by actor',
         'cross-validator doubles / the recording proxy around sklearn cross-validators observe split() calls from outside',
+        'fixed-point data (multiples of 60/8) make float arithmetic of the code under test exact; fractions.Fraction for the comparison',
     ]
     ASSUMPTIONS = [
         'pipelines are row-preserving on the apply path (true of the symbolic actor library: mappers and reducers are row-aligned)',
@@ -1624,6 +1826,10 @@ class C12(fw.Check):
         'number of that one split() is then independent of the execution order); splitters instantiated per fold get '
         'reproducible doubles',
         'the order in which an ensemble\'s apply-mode reducer receives the fold models is not part of the property',
+        'pandas_mean is driven with one-column (Series) predictions: its data-frame branch calls DataFrame.iteritems(), which '
+        'does not exist in the installed pandas 3 (environment incompatibility of the unchanged code, not generated)',
+        'index labels of the apply output are not compared (the specification is positional); fold models are applied to one '
+        'and the same input, so their predictions carry one and the same index',
     ]
 
     # ---- cases ---------------------------------------------------------------------------------
@@ -1773,6 +1979,7 @@ class C12(fw.Check):
         timed('actor', self._actor_level)
         timed('contract', self._actor_contract)
         timed('pandas', self._pandas_evaluation)
+        timed('defaults', self._real_defaults)
         if not self.quick:
             self._planted()
         bad = sexp.loads(self.model(['(denote (wrap none))', '(rows (1 1 ()) (part 1))'])[0])
@@ -1919,6 +2126,161 @@ class C12(fw.Check):
                     small = self._ops_shrink(cfg, sig)
                     what2 = next((w for w, s2 in self._ops_judge(small)[1] if s2 == sig), what)
                     self.violate(f'{what2} [{small["cls"]} splitter, {len(small["ops"])} operations]', small, sig)
+
+    # ---- the real default reducers / concatenators on adversarial data vs the Lean reducers and the matrix spec ------
+    def _index(self, n: int) -> list:
+        """A legal but non-default frame index for `n` rows."""
+        rng = self.rng
+        kind = rng.choice(['default', 'unsorted', 'repeated', 'strings', 'same', 'descending'])
+        if kind == 'default':
+            return list(range(n))
+        if kind == 'unsorted':
+            return rng.sample(range(100, 200), n)
+        if kind == 'repeated':
+            return [rng.choice([3, 5, 8]) for _ in range(n)]
+        if kind == 'strings':
+            return [rng.choice('dcba') + rng.choice(['', 'x']) for _ in range(n)]
+        if kind == 'same':
+            return [7] * n
+        return list(range(n, 0, -1))
+
+    def _real_mean_case(self) -> dict:
+        rng = self.rng
+        k = rng.choice([2, 3, 3, 4, 5])
+        n = rng.randint(k, 3 * k)
+        ids = rng.sample(range(1000, 2000), n)
+        pattern = rng.choice(['sparse', 'sparse', 'cancel', 'equal', 'negative', 'all-zero', 'any'])
+        if pattern == 'sparse':  # most records weigh nothing: some folds score exactly 0
+            w = [rng.choice([0, 0, 0, 0, 1, -1, 2, 4]) for _ in ids]
+        elif pattern == 'cancel':  # weights that cancel within a contiguous fold
+            w = [(1 if i % 2 else -1) * (1 + i // 2 % 3) for i in range(n)]
+        elif pattern == 'equal':
+            w = [2] * n
+        elif pattern == 'negative':
+            w = [-rng.randint(0, 4) for _ in ids]
+        elif pattern == 'all-zero':
+            w = [0] * n
+        else:
+            w = [rng.randint(-8, 8) for _ in ids]
+        style = 'holdout' if rng.random() < 0.1 and n >= 3 else 'crossval'
+        seed = rng.randrange(1000) if style == 'holdout' else rng.choice([False, False, rng.randrange(1000), None])
+        return {'actor': 'real-mean', 'ids': ids, 'w': w, 'k': k, 'style': style, 'seed': seed, 'ints': rng.random() < 0.3,
+                'pattern': pattern, 'index': self._index(n) if rng.random() < 0.5 else None, 'np_seed': rng.randrange(2 ** 31)}
+
+    def _real_stack_case(self) -> dict:
+        rng = self.rng
+        k = rng.choice([2, 2, 3, 4, 5])
+        n = rng.randint(k, 2 * k + 2)  # down to single-row folds
+        m = rng.choice([1, 2, 3, 3, 4, 5])
+        return {'actor': 'real-stack', 'x': [rng.randint(-4, 4) for _ in range(n)], 'y': [rng.randint(-3, 3) for _ in range(n)],
+                'index': self._index(n), 'live_x': [rng.randint(-4, 4) for _ in range(m)], 'live_index': self._index(m),
+                'slopes': [rng.choice([0, 1, -1, 2]) for _ in range(rng.choice([1, 2, 2, 3]))], 'k': k,
+                'seed': rng.choice([False, rng.randrange(1000), None]), 'np_seed': rng.randrange(2 ** 31)}
+
+    @staticmethod
+    def _real_variants(cfg):
+        """Smaller data of the same kind."""
+        if cfg['actor'] == 'real-mean':
+            n, k = len(cfg['ids']), cfg['k']
+            if cfg['style'] == 'crossval' and k > 2:
+                yield dict(cfg, k=k - 1)
+            for i in range(n):
+                if n - 1 >= max(k, 3 if cfg['style'] == 'holdout' else 2):
+                    yield dict(cfg, ids=cfg['ids'][:i] + cfg['ids'][i + 1:], w=cfg['w'][:i] + cfg['w'][i + 1:], index=None)
+            if cfg.get('index') is not None:
+                yield dict(cfg, index=None)
+            for i, v in enumerate(cfg['w']):
+                if abs(v) > 1:
+                    yield dict(cfg, w=cfg['w'][:i] + [v // abs(v)] + cfg['w'][i + 1:])
+            if cfg['seed'] not in (False, None) and cfg['style'] == 'crossval':
+                yield dict(cfg, seed=False)
+            if cfg['ints']:
+                yield dict(cfg, ints=False)
+        else:
+            n, m, k = len(cfg['x']), len(cfg['live_x']), cfg['k']
+            if len(cfg['slopes']) > 1:
+                for b in range(len(cfg['slopes'])):
+                    yield dict(cfg, slopes=cfg['slopes'][:b] + cfg['slopes'][b + 1:])
+            if k > 2:
+                yield dict(cfg, k=k - 1)
+            for i in range(m):
+                if m > 1:
+                    yield dict(cfg, live_x=cfg['live_x'][:i] + cfg['live_x'][i + 1:], live_index=cfg['live_index'][:i] + cfg['live_index'][i + 1:])
+            for i in range(n):
+                if n - 1 >= k:
+                    yield dict(cfg, x=cfg['x'][:i] + cfg['x'][i + 1:], y=cfg['y'][:i] + cfg['y'][i + 1:], index=cfg['index'][:i] + cfg['index'][i + 1:])
+            if cfg['seed'] is not False:
+                yield dict(cfg, seed=False)
+            if cfg['index'] != list(range(n)):
+                yield dict(cfg, index=list(range(n)))
+
+    def _real_shrink(self, cfg, sig) -> tuple:
+        func = real_mean if cfg['actor'] == 'real-mean' else real_stack
+
+        def judge(c):
+            return guarded(lambda c_: func(c_)[2], c)
+
+        cur, steps, progress = cfg, 0, True
+        while progress and steps < 80:
+            progress = False
+            for cand in self._real_variants(cur):
+                steps += 1
+                if any(s2 == sig for _, s2 in judge(cand)):
+                    cur, progress = cand, True
+                    break
+        return cur, next((w for w, s2 in judge(cur) if s2 == sig), None)
+
+    def _real_report(self, cfg, found, reported: set) -> None:
+        for what, sig in found:
+            if sig in reported:
+                continue
+            reported.add(sig)
+            small, what2 = self._real_shrink(cfg, sig)
+            self.violate(what2 or what, small, sig)
+
+    def _real_defaults(self):
+        import fractions
+
+        means = [self._real_mean_case() for _ in range(self.n(30, 300))]
+        stacks = [self._real_stack_case() for _ in range(self.n(30, 300))]
+        lines, jobs = [], []
+        reported: set = set()
+        for cfg in means:
+            try:
+                scores, got, found = real_mean(cfg)
+            except Exception as err:  # pylint: disable=broad-except
+                scores, got, found = None, None, raised(err, cfg)
+            self.case(('real-mean', sexp.dumps([cfg['ids'], cfg['w'], cfg['k'], str(cfg['seed']), cfg['style'], cfg['ints']])),
+                      f'default mean reducer {cfg["style"]} folds={cfg["k"] if cfg["style"] == "crossval" else 1} scores={cfg["pattern"]}',
+                      nontrivial=True, sample={'w': cfg['w'], 'k': cfg['k']})
+            self._real_report(cfg, found, reported)
+            if scores is not None and len(scores) >= 2 and got is not None:  # a single fold bypasses the reducer
+                jobs.append(('mean', cfg, got, len(lines)))
+                lines.append(sexp.dumps(['mean', UNIT_DEN, [UNIT_NUM * u for u in scores]]))
+        for cfg in stacks:
+            try:
+                preds, got, found = real_stack(cfg)
+            except Exception as err:  # pylint: disable=broad-except
+                preds, got, found = None, None, raised(err, cfg)
+            self.case(('real-stack', sexp.dumps([cfg['x'], cfg['y'], [str(i) for i in cfg['index']], cfg['live_x'],
+                                                 [str(i) for i in cfg['live_index']], cfg['slopes'], cfg['k'], str(cfg['seed'])])),
+                      f'default FullStack actors folds={cfg["k"]} bases={len(cfg["slopes"])} live rows={len(cfg["live_x"])}',
+                      nontrivial=True, sample={'live_index': cfg['live_index'], 'k': cfg['k']})
+            self._real_report(cfg, found, reported)
+            if preds is not None and got is not None:
+                for b, folds in enumerate(preds):
+                    jobs.append(('reduce', cfg, [row[b] if b < len(row) else None for row in got], len(lines)))
+                    lines.append(sexp.dumps(['reduce', UNIT_DEN, [[UNIT_NUM * v for v in fold] for fold in folds]]))
+        answers = self.model(lines) if lines else []
+        for kind, cfg, got, at in jobs:
+            m = sexp.num(sexp.loads(answers[at]))
+            if not (isinstance(m, list) and m and m[0] == 'ok'):
+                self.diverge(f'model refuses what the real default {kind} reducer computes', cfg, [str(g) for g in got] if isinstance(got, list) else str(got), m)
+            elif kind == 'mean' and fractions.Fraction(m[1], m[2]) != got:
+                self.diverge('default reducer of the per-fold metric values (evaluation._metric.mean)', cfg, str(got), f'{m[1]}/{m[2]}')
+            elif kind == 'reduce' and [fractions.Fraction(a, b) for a, b in m[1]] != got:
+                self.diverge('default apply-mode reducer of the fold models (ensemble.pandas_mean)', cfg, [str(g) for g in got],
+                             [f'{a}/{b}' for a, b in m[1]])
 
     # ---- the real thing on data: default constructors, sklearn splitters, PandasCVFolds, pickled states ---------
     def _pandas_evaluation(self):
@@ -2123,6 +2485,14 @@ class C12(fw.Check):
             return None
         if w.get('actor') == 'pandas-stack':
             for what, sig in guarded(pandas_stack, w):
+                return fw.Violation(what, w, sig)
+            return None
+        if w.get('actor') == 'real-mean':
+            for what, sig in guarded(lambda c: real_mean(c)[2], w):
+                return fw.Violation(what, w, sig)
+            return None
+        if w.get('actor') == 'real-stack':
+            for what, sig in guarded(lambda c: real_stack(c)[2], w):
                 return fw.Violation(what, w, sig)
             return None
         if w.get('actor') == 'ops':
